@@ -160,7 +160,7 @@ def make_mecard_data(name, reading=None, email=None, phone=None, videophone=None
             birthday = birthday.strftime('%Y%m%d')
         except AttributeError:
             pass
-        data.append(f'BDAY:{birthday};')
+        data.append(f'BDAY:{escape(birthday)};')
     data.extend(make_multifield('URL', url))
     adr_properties = (pobox, roomno, houseno, city, prefecture, zipcode, country)
     if any(adr_properties):
